@@ -556,13 +556,13 @@ def msg_sweep(res):
             k += 1
             cfg = Config(channels=[dict(name="#r", flags=fl, founders=["alice"], protecteds=["alice", "bob"], operators=["bob", "carol"],
                                         half_operators=["carol", "dave"], voices=["dave", "alice"],
-                                        ban=(["éva!*@*", "x!*@*"] if banned else None), exception=(["x!*@127.*"] if banned else None))])
+                                        ban=(["éva!*@*", "x!*@*", "y*!*@*"] if banned else None), exception=(["x!*@127.*"] if banned else None))])
             t = Trace("msg-%s-%d" % (fl or "none", banned), cfg)
-            for c, n in enumerate(["alice", "bob", "carol", "dave", "éva", "x"]):
+            for c, n in enumerate(["alice", "bob", "carol", "dave", "éva", "x", "yan"]):
                 t.register(c, n)
-                if n not in ("x",):
+                if n not in ("x", "yan"):
                     t.line(c, "JOIN #r")
-            for sender in (0, 3, 4, 5):
+            for sender in (0, 3, 4, 5, 6):
                 for pf in prefixes:
                     t.line(sender, "PRIVMSG %s#r :to %s" % (pf, pf or "all"))
                 t.line(sender, "NOTICE @%#r,#r,alice,@%#r :dup")
@@ -615,4 +615,388 @@ def check_C10(res):
                 "(member or open channel, not banned unless excepted, voice on +m) evaluated on the implementation's own pre-state, incl. NOTICE silence and 301" % n,
         "traces_validated_against_impl": r["traces"],
         "samples": [sweep[-1].describe()["events"][20:26]],
+        "l2": r["summary"]})
+
+
+# ====================================================================== C07 / C16
+def join_oracle(t, steps):
+    """JOIN admission on the implementation: decision from its own pre-state, effect, announcement"""
+    fails = []
+    cm = ConnMap(t.cfg.name)
+    prev = None
+    srv = t.cfg.name
+    for s in sorted(steps, key=lambda s: s["k"]):
+        ev = t.events[s["k"]]
+        if ev[0] == "L" and isinstance(ev[2], str) and prev is not None and not s.get("panics"):
+            m = re.match(r"^JOIN (\S+)(?: (\S+))?$", ev[2])
+            actor = cm.nick.get(ev[1])
+            if m and actor in prev["users"]:
+                chs = m.group(1).split(",")
+                keys = m.group(2).split(",") if m.group(2) else None
+                valid = all(c and c[0] in "#&" and ":" not in c for c in chs) and (keys is None or len(keys) == len(chs))
+                mine = (s.get("out") or {}).get(str(ev[1]), [])
+                if valid and not (mine and numeric_of(mine[0]) == "ERROR"):
+                    u = prev["users"][actor]
+                    src = u["source"]
+                    jc = len(u["channels"])
+                    accepted = []
+                    exp_num = []
+                    for idx, c in enumerate(chs):
+                        if c in accepted:
+                            continue
+                        ch = prev["channels"].get(c)
+                        ok = True
+                        if ch is not None:
+                            if ch["key"] is not None and (keys is None or keys[idx] != ch["key"]):
+                                ok = False
+                                exp_num.append("475")
+                            elif py_banned(ch, src):
+                                ok = False
+                                exp_num.append("474")
+                            elif "i" in ch["flags"] and c not in u["invited"] and not any(py_glob(e, src) for e in ch["invex"]):
+                                ok = False
+                                exp_num.append("473")
+                            elif ch["limit"] is not None and len(ch["users"]) >= ch["limit"]:
+                                ok = False
+                                exp_num.append("471")
+                            elif actor in ch["users"]:
+                                ok = False
+                        mj = t.cfg.max_joins
+                        if mj is not None and jc >= mj:
+                            exp_num.append("405")
+                            ok = False
+                        if ok:
+                            accepted.append(c)
+                            jc += 1
+                    after = s["dump"]
+                    for c in set(chs):
+                        was = actor in (prev["channels"].get(c) or {"users": {}})["users"]
+                        now = actor in (after["channels"].get(c) or {"users": {}})["users"]
+                        should = was or c in accepted
+                        if now != should:
+                            fails.append(("JOIN %s by %s: membership of %s is %s, the admission rule gives %s" % (ev[2], actor, c, now, should), {"step": s["k"]}))
+                        if c in accepted and c in after["users"].get(actor, {}).get("invited", []):
+                            fails.append(("JOIN %s: the invitation to %s was not used up" % (ev[2], c), {"step": s["k"]}))
+                    got_num = sorted(n for n in (numeric_of(l) for l in mine) if n in ("471", "473", "474", "475", "405"))
+                    if got_num != sorted(exp_num):
+                        fails.append(("JOIN %s by %s: answered %r, the rule gives %r" % (ev[2], actor, got_num, sorted(exp_num)), {"step": s["k"]}))
+                    if not accepted:
+                        d = irc.diff_dump(prev, after, "dump")
+                        if d:
+                            fails.append(("refused JOIN %s changed the state: %s" % (ev[2], d), {"step": s["k"]}))
+                        others = {c: l for c, l in (s.get("out") or {}).items() if c != str(ev[1]) and l}
+                        if others:
+                            fails.append(("refused JOIN %s was announced: %r" % (ev[2], others), {"step": s["k"]}))
+                    for c in accepted:
+                        line = ":%s JOIN %s" % (src, c)
+                        members_after = set(after["channels"][c]["users"]) if c in after["channels"] else set()
+                        for mem in members_after:
+                            cid = cm.conn_of(mem) if mem != actor else ev[1]
+                            cnt = (s.get("out") or {}).get(str(cid), []).count(line)
+                            if cnt != 1:
+                                fails.append(("JOIN %s: member %s saw the announcement %d times" % (c, mem, cnt), {"step": s["k"]}))
+                        if c not in prev["channels"]:
+                            co = after["channels"].get(c)
+                            if co is None or co["users"] != {actor: "qo"} or co["flags"] or co["key"] or co["limit"] is not None or co["topic"] or co["ban"]:
+                                fails.append(("JOIN created %s as %r, expected a fresh channel with the joiner as founder+operator" % (c, co), {"step": s["k"]}))
+        cm.update(s)
+        prev = s.get("dump")
+    return fails
+
+
+def c07_sweep(res):
+    traces = []
+    k = 0
+    for keymode in ("nokey", "right", "wrong", "missing"):
+        for bits in range(64):
+            banned, excepted, ionly, invited, invex, full = [(bits >> b) & 1 for b in range(6)]
+            for quota_at in (0, 1):
+                k += 1
+                if res.tier == "quick" and k % 4 != (res.seed % 4):
+                    continue
+                cfg = Config(max_joins=1 if quota_at else 3,
+                             channels=[dict(name="#c", operators=["alice"], topic="T")])
+                t = Trace("c07-%s-%d-%d" % (keymode, bits, quota_at), cfg)
+                t.register(0, "alice")
+                t.register(1, "joe")
+                t.line(0, "JOIN #c")
+                if quota_at:
+                    t.line(1, "JOIN #other")
+                if keymode != "nokey":
+                    t.line(0, "MODE #c +k k1")
+                if banned:
+                    t.line(0, "MODE #c +b joe!*@*")
+                if excepted:
+                    t.line(0, "MODE #c +e *!*@127.*")
+                if ionly:
+                    t.line(0, "MODE #c +i")
+                if invex:
+                    t.line(0, "MODE #c +I j?e")
+                if invited:
+                    t.line(0, "INVITE joe #c")
+                if full:
+                    t.line(0, "MODE #c +l 1")
+                t.line(1, "JOIN #c" + {"nokey": "", "right": " k1", "wrong": " kX", "missing": ""}[keymode])
+                t.line(0, "NAMES #c")
+                t.line(1, "JOIN #c" + {"nokey": "", "right": " k1", "wrong": " k1", "missing": " k1"}[keymode])
+                t.meta = {"cell": [keymode, banned, excepted, ionly, invited, invex, full, quota_at]}
+                traces.append(t)
+    return traces
+
+
+def join_profile():
+    return {"weights": dict(JOIN=26, PART=8, MODE=14, INVITE=8, KICK=4, NICK=3, PRIVMSG=2, QUIT=1, MISC=0.2, BAD=1,
+                            WHO=0.3, WHOIS=0.3, LIST=0.5, NAMES=2),
+            "max_joins": [None, 1, 2, 3], "max_conns": 6, "initial_conns": 3}
+
+
+def check_C07(res):
+    sweep = c07_sweep(res)
+    n = 100 if res.tier == "quick" else 2000
+    r = l2_campaign(res, "C07", n, 45, join_profile(), traces=sweep, oracle=join_oracle)
+    res.coverage.update({
+        "evaluations": r["steps"], "distinct_nontrivial": len(set(tuple(t.meta["cell"]) for t in sweep)),
+        "rule": "sweep over the admission table: key {unset, right, wrong, missing} x banned x excepted x +i x invited x invite-exception x full x quota reached = 512 cells, each set up "
+                "through real MODE/INVITE commands on a preconfigured channel and probed with two JOINs (quick tier: a seed-selected quarter = 128 cells; thorough: all); distinct = cells run; plus %d "
+                "seeded random histories with comma lists and per-channel keys; every JOIN step is compared impl vs model and against the admission rule evaluated on the implementation's own pre-state" % n,
+        "exhaustive": res.tier == "thorough",
+        "traces_validated_against_impl": r["traces"],
+        "samples": [sweep[3].describe()["events"][8:], sweep[-1].meta],
+        "l2": r["summary"]})
+
+
+def c16_traces(res):
+    rng = random.Random(res.seed + 16)
+    traces = []
+    exits = ["PART", "KICKSELF", "QUIT", "CLOSE", "KILL", "KICKED"]
+    k = 0
+    for pre in (False, True):
+        for e1 in exits:
+            for e2 in exits:
+                k += 1
+                cfg = Config(operators=[dict(name="admin", password="operpass")],
+                             channels=[dict(name="#pre", topic="Pre", flags="nt", key="k1", limit=5, ban=["x!*@*"],
+                                            voices=["bob"], founders=["alice"])] if pre else [])
+                ch = "#pre" if pre else "#life"
+                key = " k1" if pre else ""
+                t = Trace("c16-%d-%s-%s" % (pre, e1, e2), cfg)
+                t.register(0, "alice")
+                t.register(1, "bob")
+                t.register(2, "admin")
+                t.line(2, "OPER admin operpass")
+                t.line(0, "JOIN " + ch + key)
+                t.line(0, "TOPIC %s :first life" % ch)
+                t.line(0, "MODE %s +im" % ch)
+                t.line(0, "INVITE bob " + ch)
+                t.line(1, "JOIN " + ch + key)
+                t.line(0, "MODE %s +o bob" % ch)
+
+                def leave(cid, nick, how, other_cid):
+                    if how == "PART":
+                        t.line(cid, "PART " + ch)
+                    elif how == "KICKSELF":
+                        t.line(cid, "KICK %s %s" % (ch, nick))
+                    elif how == "QUIT":
+                        t.line(cid, "QUIT")
+                    elif how == "CLOSE":
+                        t.close(cid)
+                    elif how == "KILL":
+                        t.line(2, "KILL %s :bye" % nick)
+                    elif how == "KICKED":
+                        t.line(other_cid, "KICK %s %s" % (ch, nick))
+                leave(1, "bob", e1, 0)
+                t.line(2, "LIST")
+                leave(0, "alice", e2, 1)
+                t.line(2, "LIST")
+                t.line(2, "MODE " + ch)
+                t.line(2, "JOIN " + ch + key)
+                t.line(2, "MODE " + ch)
+                t.line(2, "TOPIC " + ch)
+                t.line(2, "NAMES " + ch)
+                t.meta = {"pre": pre, "exits": [e1, e2]}
+                traces.append(t)
+    return traces
+
+
+def c16_oracle(t, steps):
+    fails = join_oracle(t, steps)
+    pre_names = set(c["name"] for c in t.cfg.channels)
+    prev = None
+    for s in sorted(steps, key=lambda s: s["k"]):
+        d = s.get("dump")
+        if d is None or s.get("panics"):
+            prev = d
+            continue
+        for name, ch in d["channels"].items():
+            if not ch["users"] and not ch["preconfigured"]:
+                fails.append(("channel %s exists without members after step %d" % (name, s["k"]), {"step": s["k"]}))
+            if ch["preconfigured"] != (name in pre_names) and name in pre_names:
+                fails.append(("configured channel %s lost its preconfigured mark" % name, {"step": s["k"]}))
+        for name in pre_names:
+            if name not in d["channels"]:
+                fails.append(("configured channel %s ceased to exist at step %d" % (name, s["k"]), {"step": s["k"]}))
+        prev = d
+    return fails
+
+
+def check_C16(res):
+    sweep = c16_traces(res)
+    n = 80 if res.tier == "quick" else 1500
+    prof = join_profile()
+    prof["weights"].update(PART=14, KICK=8, QUIT=3, KILL=2, OPER=3)
+    prof["p_close"] = 0.08
+    r = l2_campaign(res, "C16", n, 50, prof, traces=sweep, oracle=c16_oracle)
+    res.coverage.update({
+        "evaluations": r["steps"], "distinct_nontrivial": len(sweep),
+        "rule": "life-cycle sweep: {ordinary, preconfigured with topic/flags/key/limit/ban/rank lists} x exit of the first member x exit of the last member over {PART, self-KICK, QUIT, "
+                "socket close, KILL, KICK by the other} = 72 create-use-empty-recreate histories, each followed by LIST/MODE/TOPIC/NAMES probes and a re-JOIN; plus %d seeded random histories "
+                "weighted to PART/KICK/QUIT/close; oracle on the implementation: no memberless ordinary channel ever exists, configured channels never vanish, a JOIN to an absent name yields the "
+                "fresh founder+operator channel; distinct = sweep histories" % n,
+        "traces_validated_against_impl": r["traces"],
+        "samples": [sweep[7].describe()["events"][10:]],
+        "l2": r["summary"]})
+
+
+# ====================================================================== C09
+def rk(flags):
+    return {"founder": "q" in flags, "protected": "a" in flags, "operator": "o" in flags, "half": "h" in flags,
+            "voice": "v" in flags}
+
+
+def is_half_op(f):
+    return any(x in f for x in "qaoh")
+
+
+def rank_oracle(t, steps):
+    """KICK / TOPIC / INVITE decisions on the implementation, from its own pre-state"""
+    fails = []
+    cm = ConnMap(t.cfg.name)
+    prev = None
+    for s in sorted(steps, key=lambda s: s["k"]):
+        ev = t.events[s["k"]]
+        if ev[0] == "L" and isinstance(ev[2], str) and prev is not None and not s.get("panics"):
+            actor = cm.nick.get(ev[1])
+            mine = (s.get("out") or {}).get(str(ev[1]), [])
+            refused_syntax = bool(mine) and numeric_of(mine[0]) in ("ERROR", "461")
+            after = s["dump"]
+            if actor in prev["users"] and not refused_syntax:
+                m = re.match(r"^KICK (\S+) (\S+)(?: :(.*))?$", ev[2])
+                if m and m.group(1)[0] in "#&":
+                    chn, victims = m.group(1), m.group(2).split(",")
+                    ch = prev["channels"].get(chn)
+                    exp_removed = set()
+                    if ch and actor in ch["users"] and is_half_op(ch["users"][actor]):
+                        only_half = ch["users"][actor].replace("v", "") == "h"
+                        for v in victims:
+                            f = ch["users"].get(v)
+                            if f is not None and "q" not in f and "a" not in f and not (only_half and is_half_op(f)):
+                                exp_removed.add(v)
+                    before = set(ch["users"]) if ch else set()
+                    now = set(after["channels"][chn]["users"]) if chn in after["channels"] else set()
+                    removed = before - now
+                    if removed != exp_removed:
+                        fails.append(("%s by %s (%s): removed %r, the rank rule gives %r" % (
+                            ev[2], actor, ch["users"].get(actor) if ch else None, sorted(removed), sorted(exp_removed)), {"step": s["k"]}))
+                    for v in exp_removed:
+                        line_re = re.compile(r"^:\S+ KICK %s %s :" % (re.escape(chn), re.escape(v)))
+                        for mem in (now | {v}):
+                            cid = cm.conn_of(mem)
+                            cnt = sum(1 for l in (s.get("out") or {}).get(str(cid), []) if line_re.match(l))
+                            if cnt != 1:
+                                fails.append(("KICK of %s from %s: %s saw the announcement %d times" % (v, chn, mem, cnt), {"step": s["k"]}))
+                    if not exp_removed and irc.diff_dump(prev, after, "d"):
+                        fails.append(("refused %s changed the state: %s" % (ev[2], irc.diff_dump(prev, after, "state")), {"step": s["k"]}))
+                m = re.match(r"^TOPIC (\S+) :(.*)$", ev[2])
+                if m and m.group(1)[0] in "#&" and "\r" not in ev[2] and "\x0c" not in ev[2]:
+                    chn, text = m.group(1), m.group(2)
+                    ch = prev["channels"].get(chn)
+                    allowed = bool(ch) and actor in ch["users"] and ("t" not in ch["flags"] or is_half_op(ch["users"][actor]))
+                    if allowed:
+                        exp_topic = [text, actor] if text != "" else None
+                        if after["channels"][chn]["topic"] != exp_topic:
+                            fails.append(("%s by %s: topic is %r, expected %r" % (ev[2], actor, after["channels"][chn]["topic"], exp_topic), {"step": s["k"]}))
+                        for mem in ch["users"]:
+                            cid = cm.conn_of(mem)
+                            cnt = sum(1 for l in (s.get("out") or {}).get(str(cid), []) if re.match(r"^:\S+ TOPIC ", l))
+                            if cnt != 1:
+                                fails.append(("TOPIC change on %s: member %s saw it %d times" % (chn, mem, cnt), {"step": s["k"]}))
+                    elif irc.diff_dump(prev, after, "d"):
+                        fails.append(("%s by %s (not entitled) changed the state: %s" % (ev[2], actor, irc.diff_dump(prev, after, "state")), {"step": s["k"]}))
+                m = re.match(r"^INVITE (\S+) (\S+)$", ev[2])
+                if m and m.group(2)[0] in "#&":
+                    who, chn = m.group(1), m.group(2)
+                    ch = prev["channels"].get(chn)
+                    ok = bool(ch) and actor in ch["users"] and ("i" not in ch["flags"] or "o" in ch["users"][actor]) \
+                        and who not in ch["users"] and who in prev["users"]
+                    got_inv = [(c, l) for c, ls in (s.get("out") or {}).items() for l in ls if re.match(r"^:\S+ INVITE ", l)]
+                    if ok:
+                        if chn not in after["users"][who]["invited"]:
+                            fails.append(("%s by %s: invitation not recorded" % (ev[2], actor), {"step": s["k"]}))
+                        if [c for c, _ in got_inv] != [str(cm.conn_of(who))]:
+                            fails.append(("%s: INVITE line went to connections %r, expected only %s" % (ev[2], [c for c, _ in got_inv], who), {"step": s["k"]}))
+                    else:
+                        if got_inv or irc.diff_dump(prev, after, "d"):
+                            fails.append(("%s by %s is not entitled but had an effect: %r %s" % (ev[2], actor, got_inv, irc.diff_dump(prev, after, "state")), {"step": s["k"]}))
+        cm.update(s)
+        prev = s.get("dump")
+    return fails
+
+
+RANK_SUBSETS = ["".join(x) for k in range(6) for x in itertools.combinations("qaohv", k)]
+
+
+def c09_sweep(res):
+    """actor rank subset x victim rank subset through preconfigured rank lists; +t/-t, +i/-i"""
+    traces = []
+    k = 0
+    names = {"q": "founders", "a": "protecteds", "o": "operators", "h": "half_operators", "v": "voices"}
+    for a in RANK_SUBSETS:
+        for v in RANK_SUBSETS:
+            k += 1
+            if res.tier == "quick" and k % 6 != (res.seed % 6):
+                continue
+            ch = dict(name="#r", flags=("t" if k % 2 else "") + ("i" if k % 3 == 0 else ""))
+            for l in "qaohv":
+                mem = (["actor"] if l in a else []) + (["victim"] if l in v else [])
+                if mem:
+                    ch[names[l]] = mem
+            cfg = Config(channels=[ch])
+            t = Trace("c09-%s-%s" % (a or "none", v or "none"), cfg)
+            t.register(0, "actor")
+            t.register(1, "victim")
+            t.register(2, "third")
+            t.register(3, "guest")
+            if "i" in ch["flags"]:
+                # +i: members come in through invite-exception set by config is not available; use founder bootstrap
+                cfg.channels[0]["invex"] = ["*!*@*"]
+            for c in (0, 1, 2):
+                t.line(c, "JOIN #r")
+            t.line(0, "TOPIC #r :new topic by actor")
+            t.line(0, "INVITE guest #r")
+            t.line(0, "INVITE victim #r")
+            t.line(3, "INVITE third #r")
+            t.line(0, "KICK #r nobody,victim,victim :out")
+            t.line(2, "NAMES #r")
+            t.line(1, "JOIN #r")
+            t.line(1, "KICK #r actor")
+            t.line(2, "KICK #r third")
+            t.meta = {"actor": a, "victim": v, "flags": ch["flags"]}
+            traces.append(t)
+    return traces
+
+
+def check_C09(res):
+    sweep = c09_sweep(res)
+    n = 100 if res.tier == "quick" else 2000
+    prof = {"weights": dict(KICK=18, TOPIC=10, INVITE=10, JOIN=12, MODE=14, PART=3, NICK=2, PRIVMSG=1, MISC=0.2, BAD=1),
+            "max_conns": 6, "initial_conns": 4}
+    r = l2_campaign(res, "C09", n, 45, prof, traces=sweep, oracle=rank_oracle)
+    res.coverage.update({
+        "evaluations": r["steps"], "distinct_nontrivial": len(set((t.meta["actor"], t.meta["victim"], t.meta["flags"]) for t in sweep)),
+        "rule": "sweep: 32 actor rank subsets x 32 victim rank subsets (set through the configured rank lists of a preconfigured channel) with +t/+i varied, each running TOPIC, INVITE (to an "
+                "outsider, to a member, from an outsider), KICK with an absent, a present and a repeated name, self-directed and counter kicks (quick: a seed-selected sixth = ~171 cells; thorough: all 1024); "
+                "distinct = cells; plus %d seeded random histories; each KICK/TOPIC/INVITE step is compared impl vs model and against the rank rule evaluated on the implementation's pre-state" % n,
+        "exhaustive": res.tier == "thorough",
+        "traces_validated_against_impl": r["traces"],
+        "samples": [sweep[5].describe()["events"][12:], sweep[5].meta],
         "l2": r["summary"]})
